@@ -51,3 +51,29 @@ Definition pair_key (k : list Z) : option (list Z * list Z) :=
   match split_first 45 k with Some (a, b) => if contains 45 b then None else two_species a b | None => None end.
 Definition fs_key (k : list Z) : option (list Z * list Z) :=
   match split_arrow k with Some (a, b) => match split_arrow b with Some _ => None | None => two_species a b end | None => None end.
+
+(* ---- [Potential-Form] signatures (ConfigParser._parse_potential_form_signature and its pattern, anchored at both ends since
+        fix 9a3d831): a label made of a letter and word characters, an opening bracket, the parameter list up to the LAST character,
+        which must be the closing bracket; the parameters are the comma-separated pieces, stripped, each a letter followed by word
+        characters *)
+Definition is_letter (c : Z) : bool := ((65 <=? c) && (c <=? 90)) || ((97 <=? c) && (c <=? 122)).
+Definition is_word (c : Z) : bool := is_letter c || ((48 <=? c) && (c <=? 57)) || (c =? 95).
+Definition ident_word (s : list Z) : bool := match s with c :: r => is_letter c && forallb is_word r | [] => false end.
+Fixpoint split_all (c : Z) (l : list Z) : list (list Z) :=
+  match l with
+  | [] => [[]]
+  | x :: r => if x =? c then [] :: split_all c r
+              else match split_all c r with p :: ps => (x :: p) :: ps | [] => [[x]] end
+  end.
+Definition sig_key (k0 : list Z) : option (list Z * list (list Z)) :=
+  let k := strip k0 in          (* pf = pf.strip() *)
+  match split_first 40 k with
+  | Some (lab, rest) =>
+      if ident_word lab then
+        match rev rest with
+        | c :: rp => if c =? 41 then (let params := map strip (split_all 44 (rev rp)) in if forallb ident_word params then Some (lab, params) else None) else None
+        | [] => None
+        end
+      else None
+  | None => None
+  end.
